@@ -43,6 +43,9 @@
     case  = (30..35 stored missing [(decoded)]) objects.GetCommit / GetTable / GetBlock / GetBlockIndex /
        GetTableIndex / GetTableProfile over a store holding [stored] under the key (missing = 1:
        no such key); for 32 / 33 the 4th element is () when s2.Decode fails, else (decoded bytes)
+    case  = (40 bytes)            payload.Hex.UnmarshalJSON(bytes) -> the 16-byte array
+    case  = (41 bytes t)          json.Unmarshal(bytes, reply type t)            obs (0) | (2)
+    case  = (42 bytes m status)   client call m against a server replying bytes  obs (0) | (2)
     case  = (20 packfile ((content sum) ...) ((compressed decoded) ...) ((blocksum (pk ...) idxsum) ...) [(a b c)])
        optional store faults: a-1 = index of the Store.Set that fails, b-1 = key prefix all of
        whose Sets fail (0 blk/ 1 blkidx/ 2 tbl/ 3 tblidx/ 4 tblsum/ 5 com/), c-1 = index of the
@@ -54,7 +57,7 @@
 From Coq Require Import String.
 From Coq Require Import List Lia Arith ZArith.
 From W.lib Require Import Tree Bytes GoSlice Reader.
-From W.model Require Import DecPrim DecLists DecObjects DecPack DecReceive.
+From W.model Require Import DecPrim DecLists DecObjects DecPack DecReceive DecJson.
 Local Open Scope N_scope.
 
 (** strconv.ParseInt(s, 10, 64) for the <= 18-digit strings DecodeTime passes (no overflow) *)
@@ -272,6 +275,12 @@ Definition run_C17 (c : tree) : tree :=
                                          (firstn (d_nat (d_nth 2 c)) b))
   | 23%nat => t_res17 t_table (on_bytes (table_read pcap) (firstn (d_nat (d_nth 2 c)) b))
   | 20%nat => run_receive c
+  | 40%nat => t_res17 t_bytes (hex_unmarshal true b)
+  (* 41 json.Unmarshal into a reply type, 42 a client call over a hostile HTTP reply: encoding/json
+     and net/http are not modelled; the observation is "returned (0) / panicked (2)" and the
+     property says it returns *)
+  | 41%nat => Node [Leaf 0]
+  | 42%nat => Node [Leaf 0]
   | _ =>
       (* persistence readers: (entry stored missing [decoded]) *)
       let v := if d_bool (d_nth 2 c) then None else Some b in
